@@ -79,3 +79,62 @@ def check_function(P, R, key, rule="OPT"):
             d = [] if rebound else [x for st in none_arm for x in _derefs(st, name)]
             R.check(not d, rule + ".O1", key, f"if {src(node.test)}", f"`{name}` not used where it is None", f"`{src(d[0])[:40] if d else ''}` uses `{name}` on the path where `{name}` is None", node.lineno)
     return n
+
+
+def _config_fallback_params(P, g):
+    """{parameter: configuration attribute} for parameters of g that default to None and are replaced by an attribute of the
+    object when None: `p = self.x if p is None else p` / `if p is None: p = self.x`."""
+    out = {}
+    a = g.node.args
+    pos = a.posonlyargs + a.args
+    dflt = dict(zip([x.arg for x in pos[len(pos) - len(a.defaults):]], a.defaults))
+    dflt.update({x.arg: d for x, d in zip(a.kwonlyargs, a.kw_defaults) if d is not None})
+    cand = {p for p, d in dflt.items() if isinstance(d, ast.Constant) and d.value is None}
+    if not cand or not g.self_name:
+        return out
+    for n in walk_no_nested(g.node):
+        tgt = val = test = None
+        if isinstance(n, ast.Assign) and len(n.targets) == 1 and isinstance(n.targets[0], ast.Name) and isinstance(n.value, ast.IfExp):
+            tgt, test = n.targets[0].id, n.value.test
+            nt = _none_test(test)
+            if nt and nt[0] == tgt and tgt in cand:
+                val = n.value.body if nt[1] else n.value.orelse
+        elif isinstance(n, ast.If) and len(n.body) == 1 and isinstance(n.body[0], ast.Assign) and len(n.body[0].targets) == 1 and isinstance(n.body[0].targets[0], ast.Name):
+            nt = _none_test(n.test)
+            if nt and nt[1] and nt[0] == n.body[0].targets[0].id and nt[0] in cand:
+                tgt, val = nt[0], n.body[0].value
+        if tgt and isinstance(val, ast.Attribute) and isinstance(val.value, ast.Name) and val.value.id == g.self_name:
+            out[tgt] = val.attr
+    return out
+
+
+def check_forwarded_defaults(P, R, modules, rule="OPT.forward-default"):
+    """A wrapper that forwards its own parameter to a parameter the callee replaces by the object's configuration when it is None
+    must itself default to None: a literal default in the wrapper is always passed on, so the configured value is honoured through
+    one entry point and silently replaced through the other."""
+    n = 0
+    for f in P.all_funcs(modules):
+        a = f.node.args
+        pos = a.posonlyargs + a.args
+        dflt = dict(zip([x.arg for x in pos[len(pos) - len(a.defaults):]], a.defaults))
+        dflt.update({x.arg: d for x, d in zip(a.kwonlyargs, a.kw_defaults) if d is not None})
+        lit = {p: d for p, d in dflt.items() if isinstance(d, ast.Constant) and d.value is not None}
+        if not lit:
+            continue
+        for c in walk_no_nested(f.node):
+            if not isinstance(c, ast.Call):
+                continue
+            for t_ in P.resolve_callee(c.func, f):
+                if t_[0] != "repo":
+                    continue
+                g = t_[1]
+                fb = _config_fallback_params(P, g)
+                if not fb:
+                    continue
+                b = P.bind_args(g, c.args, c.keywords)
+                for prm, arg in b.items():
+                    if prm in fb and isinstance(arg, ast.Name) and arg.id in lit and not any(isinstance(x, ast.Name) and x.id == arg.id and isinstance(x.ctx, ast.Store) for x in ast.walk(f.node)):
+                        n += 1
+                        R.violation(rule, f.key, f"{g.qualname}({prm}={arg.id}) with {arg.id}={src(lit[arg.id])} by default", f"`{f.qualname}` always passes its own default {src(lit[arg.id])} for `{prm}`, so `{g.qualname}` never falls back to the configured `{fb[prm]}`: the same object behaves differently through the two entry points", c.lineno)
+    R.ok(rule, "package", f"no wrapper in {', '.join(modules)} overrides a configuration fallback with a literal default ({n} sites)", "")
+    return n
